@@ -16,6 +16,7 @@ Definition run_check (n : netlist) (c : sx) : res sx :=
   | A "C05" => Ok (L [A "C05"; fails_to_sx (chk_C05 n)])
   | A "C09" => Ok (L [A "C09"; fails_to_sx (chk_C09 n)])
   | A "C13" => Ok (L [A "C13"; fails_to_sx (chk_C13 n)])
+  | L [A "C13"; exp] => do exp <- sx_listof sx_expected exp; Ok (L [A "C13"; fails_to_sx (chk_C13n n exp)])
   | A "C14" => Ok (L [A "C14"; fails_to_sx (chk_C14 n)])
   | L [A "C01"; exp] => do exp <- sx_listof sx_expected exp; Ok (L [A "C01"; fails_to_sx (chk_C01 n exp)])
   | L [A "C04"; L [m; nn; atts]; exp] =>
